@@ -175,17 +175,23 @@ class C18(Prop):
             S = bond_percolate(g, Ex(case["phi"]))
         after = snap()
         n = g.order()
-        obs = {"S": rs(recover(S, n)), "is_float": isinstance(S, float), "n_draws": len(sem.used), "edge_order": order,
+        obs = {"S": rs(recover(S, n)), "S_repr": repr(float(S)), "is_float": isinstance(S, float), "n_draws": len(sem.used), "edge_order": order,
                "draws_in_order": [rs(x) for x in seq], "input_untouched": before == after, "N": n,
                "rng_unexpected": sem.summary()["n_unexpected"]}
         if len(order) <= LAW_MAX_EDGES:
             phi = Fraction(case["phi"])
 
+            other = {"n": 0}
+
             def run(decide):
                 r = R(decide)
                 with installed(r):
-                    return rs(recover(bond_percolate(g, Ex(case["phi"])), n))
+                    out = rs(recover(bond_percolate(g, Ex(case["phi"])), n))
+                other["n"] += r.summary()["n_unexpected"]
+                return out
             law = explore(run, phi)
+            if other["n"]:
+                law = None          # randomness drawn through something else than uniform numbers: this exploration says nothing
             obs["law"] = None if law is None else sorted([k, rs(v)] for k, v in law.items())
             obs["input_untouched"] = obs["input_untouched"] and snap() == before
         return obs
@@ -226,6 +232,9 @@ class C18(Prop):
             if got != want:
                 bad = sorted(set(got) | set(want), key=lambda k: (got.get(k) == want.get(k), k))[0]
                 f.append(f"law: P(S = {bad}) = {got.get(bad, 0)}, independent retention with probability {phi} gives {want.get(bad, 0)}")
+        if not f and "S_repr" in obs and (S * N).denominator == 1 and float(obs["S_repr"]) != int(S * N) / N:
+            # "exact": the float returned is the quotient k/N itself (a connected graph at phi = 1 gives 1.0, not 0.9999999999999999)
+            f.append(f"range: the value returned is {obs['S_repr']}, the largest component has {int(S * N)} of {N} vertices, i.e. {int(S * N) / N!r}")
         if phi == 1 and S != Fraction(lcc_size(case["nodes"], edges), N):
             f.append("phi-one: not the largest-component fraction of the input")
         if phi == 0 and all(d > 0 for d in draws) and S != Fraction(1, N):
